@@ -22,18 +22,85 @@ def _clone(t, how):
     raise ValueError(how)
 
 
+class Keeper(object):
+    """Keeps every Time object returned so far alive and re-reads it after every mutation: only the object that was
+    deliberately mutated may change; results of operations must be new objects and never the module constant."""
+
+    def __init__(self):
+        self.kept = []          # [object, snapshot, label]
+        self.msgs = []
+
+    @staticmethod
+    def snap(t):
+        return (f2b(t.quotient), f2b(t.remainder))
+
+    def returned(self, obj, label):
+        """obj was just returned by an operation that must produce a new Time"""
+        if obj is inf:
+            self.msgs.append("%s is the module constant jellyfysh.base.time.inf itself" % label)
+        for o, _, lab in self.kept:
+            if o is obj:
+                self.msgs.append("%s is the same object as %s" % (label, lab))
+                break
+        self.kept.append([obj, self.snap(obj), label])
+
+    def mutated(self, obj):
+        """obj was deliberately changed in place: everything else must be what it was"""
+        for e in self.kept:
+            if e[0] is obj:
+                e[1] = self.snap(obj)
+        self.recheck()
+
+    def recheck(self):
+        for e in self.kept:
+            if self.snap(e[0]) != e[1]:
+                self.msgs.append("%s was changed by a mutation of another object" % e[2])
+                e[1] = self.snap(e[0])
+        if self.snap(inf) != (f2b(float("inf")), f2b(float("inf"))):
+            m = "the module constant jellyfysh.base.time.inf is no longer Time(inf, inf)"
+            if m not in self.msgs:
+                self.msgs.append(m)
+
+
+def scheduler_probe(msgs):
+    """a finite event pushed into fresh schedulers (together with an infinite one) comes back"""
+    from jellyfysh.scheduler.heap_scheduler import HeapScheduler
+    from jellyfysh.scheduler.list_scheduler import ListScheduler
+
+    class H(object):
+        pass
+    for cls in (HeapScheduler, ListScheduler):
+        try:
+            sch = cls()
+            a, b = H(), H()
+            sch.push_event(Time(1.0, 0.5) + float("inf"), b)
+            sch.push_event(Time(3.0, 0.25), a)
+            if sch.get_succeeding_event() is not a:
+                msgs.append("%s did not hand back the finite event pushed after the object history" % cls.__name__)
+        except Exception as e:  # noqa
+            msgs.append("%s raised %s for a finite event pushed after the object history" % (cls.__name__, exc_enum(e)))
+
+
 def run_hist(op):
-    """["hist", steps, [q2, r2], d]: build ONE Time object through a history of constructions, update() calls and
-    copies, then apply every operation to the final object.  Sources of update() are overwritten afterwards and
-    originals of copies are overwritten, so aliasing would show."""
+    """["hist", steps, [q2, r2], d]: build ONE Time object through a history of constructions, results of + and
+    from_float, update() calls and copies, then apply every operation to the final object.  Every Time object that was
+    ever returned is kept alive and re-read after each mutation; sources of update() and originals of copies are
+    overwritten afterwards, so aliasing would show."""
     t = None
     alias_ok = 1
-    for st in op[1]:
+    K = Keeper()
+    trail = []
+    for n, st in enumerate(op[1]):
         k = st[0]
         if k == "new":
             t = Time(b2f(st[1]), b2f(st[2]))
+            K.returned(t, "the Time constructed in step %d" % n)
         elif k == "from":
             t = Time.from_float(b2f(st[1]))
+            K.returned(t, "the result of from_float in step %d" % n)
+        elif k == "add":
+            t = t + b2f(st[1])
+            K.returned(t, "the result of + %r in step %d" % (b2f(st[1]), n))
         elif k in ("upd", "updadd", "updfrom", "updinf"):
             if k == "upd":
                 src = Time(b2f(st[1]), b2f(st[2]))
@@ -43,31 +110,49 @@ def run_hist(op):
                 src = Time.from_float(b2f(st[1]))
             else:
                 src = inf
-            before = (f2b(src.quotient), f2b(src.remainder))
+            if src is not inf:
+                K.returned(src, "the source of update() in step %d" % n)
+            before = K.snap(src)
             r = t.update(src)
-            if r is not None or (f2b(src.quotient), f2b(src.remainder)) != before:
+            if r is not None or K.snap(src) != before:
                 alias_ok = 0
+            K.mutated(t)
             if src is not inf:
                 src.update(Time(*GARBAGE))      # must not reach t
+                K.mutated(src)
         elif k in ("copy", "deepcopy", "pickle", "dill"):
             old = t
             t = _clone(old, k)
             if t is old or type(t) is not Time:
                 alias_ok = 0
-            old.update(Time(*GARBAGE))          # must not reach the copy
+            K.returned(t, "the %s made in step %d" % (k, n))
+            if old is not inf:
+                old.update(Time(*GARBAGE))      # must not reach the copy
+                K.mutated(old)
         else:
             raise ValueError("unknown step " + str(k))
-    if (f2b(inf.quotient), f2b(inf.remainder)) != (f2b(float("inf")), f2b(float("inf"))):
-        alias_ok = 0
+        trail.append([f2b(t.quotient), f2b(t.remainder)])
     b = Time(b2f(op[2][0]), b2f(op[2][1]))
     d = b2f(op[3])
     res = [f2b(t.quotient), f2b(t.remainder),
            int(t == b), int(t != b), int(t < b), int(t > b), int(t <= b), int(t >= b),
            int(b == t), int(b != t), int(b < t), int(b > t), int(b <= t), int(b >= t)]
     s = t + d
-    res += [f2b(s.quotient), f2b(s.remainder), f2b(t - b), f2b(b - t), alias_ok]
+    K.returned(s, "the result of the final +")
+    res += [f2b(s.quotient), f2b(s.remainder), f2b(t - b), f2b(b - t)]
+    K.recheck()
+    # a fresh t + inf is infinite, equals the module constant and is greater than a finite time
+    z = Time(1.0, 0.5) + float("inf")
+    fin = Time(2.0 ** 52, 0.5)
+    if K.snap(z) != (f2b(float("inf")), f2b(float("inf"))) or not (fin < z) or not (z > fin) or not (fin < inf) \
+            or not (z == inf) or (z < fin):
+        K.msgs.append("after the history a fresh t + inf is not an infinite time greater than every finite time")
+    scheduler_probe(K.msgs)
+    if K.msgs:
+        alias_ok = 0
+    res += [alias_ok]
     # and the object is still what it was (operations do not change it)
-    res += [f2b(t.quotient), f2b(t.remainder)]
+    res += [f2b(t.quotient), f2b(t.remainder), trail, K.msgs[:4]]
     return res
 
 
